@@ -1344,9 +1344,174 @@ pub fn check_exit(c: &ExitCase) -> Verdict {
     }
 }
 
+// ------------------------------------------------------------ big_listing ---
+
+/// Subcheck `big_listing`: a tree of a few thousand files with long names, listed (`--files`) or searched
+/// (`-l`, `-c`) with several threads while the consumer of stdout falls behind for a moment, so that
+/// whatever sits between the walker threads and the printer (channel, buffers) fills up. The set of
+/// reported paths must equal the -j1 set: nothing omitted, nothing twice, same status, empty stderr.
+#[derive(Clone, Debug, Serialize, Deserialize)]
+pub struct BigCase {
+    pub n_files: u32,
+    pub n_dirs: u16,
+    /// bytes of padding in every file name (long names fill the stdout pipe after ~1000 paths)
+    pub name_pad: u8,
+    /// 0 --files, 1 -l needle, 2 -c needle
+    pub mode: u8,
+    /// file i contains the needle iff i % match_every == 0 (modes 1, 2)
+    pub match_every: u8,
+    pub threads: Vec<u8>,
+    /// the consumer waits this long before its first read
+    pub read_delay_ms: u16,
+}
+
+pub fn gen_big_case(t: &mut Tape) -> BigCase {
+    let n_files = 1500 + t.below(4500) as u32;
+    let n_dirs = 1 + t.below(40) as u16;
+    let name_pad = 30 + t.below(60) as u8;
+    let mode = t.weighted(&[4, 1, 1]) as u8;
+    let match_every = 1 + t.below(3) as u8;
+    let mut threads = vec![*t.pick(&[16u8, 8, 4, 2])];
+    let second = *t.pick(&[2u8, 4, 8, 16, 3]);
+    if !threads.contains(&second) {
+        threads.push(second);
+    }
+    let read_delay_ms = *t.pick(&[300u16, 0, 100, 600]);
+    BigCase { n_files, n_dirs, name_pad, mode, match_every, threads, read_delay_ms }
+}
+
+fn big_set(out: &[u8], mode: u8) -> Result<(BTreeSet<Vec<u8>>, usize), String> {
+    let mut set = BTreeSet::new();
+    let mut dups = 0usize;
+    for l in out.split(|b| *b == b'\n') {
+        if l.is_empty() {
+            continue;
+        }
+        let key = if mode == 2 {
+            // path:count
+            match l.iter().rposition(|b| *b == b':') {
+                Some(_) => l.to_vec(),
+                None => return Err(format!("count line without ':': {}", clip(l))),
+            }
+        } else {
+            l.to_vec()
+        };
+        if !set.insert(key) {
+            dups += 1;
+        }
+    }
+    Ok((set, dups))
+}
+
+pub fn check_big(c: &BigCase) -> Verdict {
+    if c.n_files == 0 || c.n_files > 20_000 || c.n_dirs == 0 || c.threads.is_empty() || c.match_every == 0 || c.mode > 2 {
+        return Verdict::Reject("outside the generated domain");
+    }
+    let tmp = TempDir::fast("c08big");
+    let pad: String = std::iter::repeat('p').take(c.name_pad as usize).collect();
+    for d in 0..c.n_dirs {
+        if std::fs::create_dir_all(tmp.path.join(format!("d{d}"))).is_err() {
+            return Verdict::Reject("could not build the tree");
+        }
+    }
+    for i in 0..c.n_files {
+        let d = i % c.n_dirs as u32;
+        let body: &[u8] = if c.mode != 0 && i % c.match_every as u32 == 0 { b"needle\n" } else { b"other\n" };
+        if std::fs::write(tmp.path.join(format!("d{d}/f{i}_{pad}")), body).is_err() {
+            return Verdict::Reject("could not build the tree");
+        }
+    }
+    let mk = |threads: u8| {
+        let rg = Rg::new(&tmp.path).args(["--no-config", "--color", "never", "--no-ignore", &format!("-j{threads}")]);
+        let rg = match c.mode {
+            0 => rg.arg("--files"),
+            1 => rg.args(["-l", "needle"]),
+            _ => rg.args(["-c", "needle"]),
+        };
+        rg.timeout(std::time::Duration::from_secs(60))
+    };
+    let r = mk(1).run();
+    if r.timed_out || r.status.is_none() || !r.stderr.is_empty() {
+        return Verdict::Reject("reference run timed out, was killed or wrote to stderr");
+    }
+    let (want, dups) = match big_set(&r.stdout, c.mode) {
+        Ok(x) => x,
+        Err(_) => return Verdict::Reject("reference output does not parse"),
+    };
+    let expected_n = if c.mode == 0 { c.n_files as usize } else { (0..c.n_files).filter(|i| i % c.match_every as u32 == 0).count() };
+    if dups > 0 || want.len() != expected_n {
+        return Verdict::Fail(Fail::new(format!(
+            "-j1 reports {} distinct paths ({dups} repeated) for a tree in which {expected_n} files qualify\n case: {}\n cmd: {}",
+            want.len(),
+            serde_json::to_string(c).unwrap_or_default(),
+            mk(1).cmdline()
+        )));
+    }
+    let mut seen_once: Option<String> = None;
+    for &n in &c.threads {
+        let mut deviations = 0;
+        let mut last = String::new();
+        for attempt in 0..3 {
+            let g = mk(n).read_delay(std::time::Duration::from_millis(c.read_delay_ms as u64)).run();
+            if g.timed_out {
+                last = format!("-j{n} run did not end within 60 s (consumer paused {} ms before reading)", c.read_delay_ms);
+            } else {
+                let got = big_set(&g.stdout, c.mode);
+                match got {
+                    Err(e) => last = e,
+                    Ok((set, dups)) => {
+                        let missing = want.difference(&set).count();
+                        let extra = set.difference(&want).count();
+                        if missing == 0 && extra == 0 && dups == 0 && g.status == r.status && g.stderr.is_empty() {
+                            if attempt == 0 {
+                                break;
+                            }
+                            continue;
+                        }
+                        let example = want.difference(&set).next().map(|p| clip(p)).unwrap_or_default();
+                        last = format!(
+                            "-j{n} (consumer paused {} ms before reading): {missing} of {} paths missing (e.g. {example}), {extra} not in the -j1 output, {dups} repeated; status {:?} vs {:?}; stderr={}",
+                            c.read_delay_ms,
+                            want.len(),
+                            g.status,
+                            r.status,
+                            clip(&g.stderr)
+                        );
+                    }
+                }
+            }
+            deviations += 1;
+            if deviations >= 2 {
+                return Verdict::Fail(Fail::new(format!(
+                    "the multi-threaded run does not report the same set of paths as -j1 (seen in {deviations} of {} runs)\n {last}\n case: {}\n cmd: {}",
+                    attempt + 1,
+                    serde_json::to_string(c).unwrap_or_default(),
+                    mk(n).cmdline()
+                )));
+            }
+        }
+        if deviations == 1 {
+            seen_once = Some(last);
+        }
+    }
+    if seen_once.is_some() {
+        return Verdict::Reject("deviation seen once in three runs (not counted)");
+    }
+    let mut info = Info::new(true);
+    info.class(match c.mode {
+        0 => "mode_files",
+        1 => "mode_files_with_matches",
+        _ => "mode_count",
+    });
+    info.class_if(c.read_delay_ms > 0, "consumer_paused");
+    info.class_if(r.stdout.len() > 200_000, "output_over_200KB");
+    info.class_if(c.n_files > 3000, "files>3000");
+    Verdict::Pass(info)
+}
+
 pub fn run(pc: &PropCtx) {
     pc.rule(
-        "each case = a generated tree (5-60 files in <= 9 directories up to 3 deep, file sizes 0 B .. ~1 MB with a total of <= ~2 MB, prefix-free paths, needle `hit<n>` on none / one / a few / most lines, optionally one file with a NUL byte, never one that is read through the --pre pipe: there the cut-off point of binary detection depends on read sizes even with -j1), one output mode (standard --heading / --no-heading / with -A/-B context / --passthru, --count / --count-matches (--include-zero), -l / --files-without-match, --json (with context), --files), 0-2 extra flags, a root spelling (implicit cwd, ./, named directory, every top-level entry as an argument), a set of thread counts from {2,3,4,8,16} and R repeats per count; a quarter of the searching cases run every file (or only *.z files) through a generated --pre script that sleeps 0-20 ms per file (from a hash of the file name) before cat. Oracle: the -j1 output is cut into per-file blocks (heading line / path prefix / JSON begin..end) and must itself have exactly the file separator of the mode between blocks (one tolerated, counted deviation of the -j1 printer: no separator in front of a block that is only a `binary file matches` notice); every -jN output must cut the same way into the same set of byte-identical blocks (JSON: after removing elapsed fields; summary equal), each once, separators exactly between blocks, same exit status, empty stderr. Subcheck `sorted`: with --sort path / --sortr path every -jN output is byte-identical to the -j1 output in all repeats and the blocks are in path order. Subcheck `exit_status`: 30-90 one-line files of which none / one / two contain the needle, searched 60 (thorough: 200) times with 4-16 threads (every third run with the jittered hook build) in standard / --count / -l / -q mode: exit status and the set of output lines must equal the -j1 run every time; a deviation is reported once it has been seen a second time within 1500 further runs. Non-trivial = at least 3 files with output and the block order differed from the -j1 order in at least one run (sorted: the same command without --sort produced a different order); distinct by hash of the case. Schedules are picked by the OS: the claim is `no violation in N perturbed runs`; classes `distinct_orders>=k` and the totals in `notes` measure how much scheduling variety was observed",
+        "each case = a generated tree (5-60 files in <= 9 directories up to 3 deep, file sizes 0 B .. ~1 MB with a total of <= ~2 MB, prefix-free paths, needle `hit<n>` on none / one / a few / most lines, optionally one file with a NUL byte, never one that is read through the --pre pipe: there the cut-off point of binary detection depends on read sizes even with -j1), one output mode (standard --heading / --no-heading / with -A/-B context / --passthru, --count / --count-matches (--include-zero), -l / --files-without-match, --json (with context), --files), 0-2 extra flags, a root spelling (implicit cwd, ./, named directory, every top-level entry as an argument), a set of thread counts from {2,3,4,8,16} and R repeats per count; a quarter of the searching cases run every file (or only *.z files) through a generated --pre script that sleeps 0-20 ms per file (from a hash of the file name) before cat. Oracle: the -j1 output is cut into per-file blocks (heading line / path prefix / JSON begin..end) and must itself have exactly the file separator of the mode between blocks (one tolerated, counted deviation of the -j1 printer: no separator in front of a block that is only a `binary file matches` notice); every -jN output must cut the same way into the same set of byte-identical blocks (JSON: after removing elapsed fields; summary equal), each once, separators exactly between blocks, same exit status, empty stderr. Subcheck `sorted`: with --sort path / --sortr path every -jN output is byte-identical to the -j1 output in all repeats and the blocks are in path order. Subcheck `exit_status`: 30-90 one-line files of which none / one / two contain the needle, searched 60 (thorough: 200) times with 4-16 threads (every third run with the jittered hook build) in standard / --count / -l / -q mode: exit status and the set of output lines must equal the -j1 run every time; a deviation is reported once it has been seen a second time within 1500 further runs. Subcheck `big_listing`: 1500-6000 files with 30-90 byte name padding in 1-40 directories, listed (--files) or searched (-l, -c) with two thread counts while the consumer waits 0-600 ms before its first read (so that the pipe and whatever queues sit in front of the printer fill up); the set of reported paths, the status and stderr must equal the -j1 run (a deviation counts when two of three runs show it). Non-trivial = at least 3 files with output and the block order differed from the -j1 order in at least one run (sorted: the same command without --sort produced a different order); distinct by hash of the case. Schedules are picked by the OS: the claim is `no violation in N perturbed runs`; classes `distinct_orders>=k` and the totals in `notes` measure how much scheduling variety was observed",
     );
     pc.assume("the -j1 run of the same command line is the reference (its own correctness is the subject of C01/C03/C09/C10)");
     pc.assume("/bin/sh, sleep with fractional seconds and cat behave as documented (the --pre script)");
@@ -1438,6 +1603,10 @@ pub fn run(pc: &PropCtx) {
     pc.count_class("exit_status:jN_runs_total", exit_cases as u64 * exit_runs as u64);
     pc.require_class("exit_status:one_matching_file_among_many", exit_cases as u64 / 3);
 
+    let big_cases = pc.tier.pick(10, 120);
+    pc.run_tape("big_listing", big_cases, (8, 40), gen_big_case, check_big);
+    pc.require_class("big_listing:consumer_paused", big_cases as u64 / 3);
+
     let unconfirmed = unconfirmed.into_inner().unwrap();
     if let Some(first) = unconfirmed.first() {
         let cut: String = first.chars().take(6000).collect();
@@ -1475,6 +1644,10 @@ pub fn replay(_pc: &PropCtx, sub: &str, case: &serde_json::Value) -> Result<Verd
     if sub == "exit_status" {
         let c: ExitCase = serde_json::from_value(case.clone()).map_err(|e| e.to_string())?;
         return Ok(check_exit(&c));
+    }
+    if sub == "big_listing" {
+        let c: BigCase = serde_json::from_value(case.clone()).map_err(|e| e.to_string())?;
+        return Ok(check_big(&c));
     }
     let c: Case = serde_json::from_value(case.clone()).map_err(|e| e.to_string())?;
     Ok(check(&c))
